@@ -51,7 +51,7 @@ func allocSpec(nontrivial string, guards ...guard) *propSpec {
 		rule:        allocRule + nontrivial,
 		assumptions: assume("Free of a super-prefix covering several blocks and wrong-family Free on the IPv6 allocator are outside the statement and are not generated"),
 		runs: []runSpec{
-			{engine: "alloc", loglevel: "fatal", qBatches: 16, qCases: 250, tBatches: 64, tCases: 1000},
+			{engine: "alloc", loglevel: "fatal", qBatches: 16, qCases: 750, tBatches: 64, tCases: 6000},
 		},
 		guards: guards,
 	}
@@ -81,7 +81,8 @@ var specs = map[string]*propSpec{
 	"C05": allocSpec("Non-trivial (C05) = history that reached a full pool (refusal observed or drained to capacity); distinct by (pool, seed).",
 		guard{"alloc.c05.refused_when_full", 100, "exhaustion must be reached"}, guard{"alloc.audit.drains", 500, "conservation audits"}),
 	"C06": allocSpec("Non-trivial (C06) = history containing a Free that must fail; distinct by (pool, seed).",
-		guard{"alloc.c06.must_fail_free", 1000, "failing-Free classes must be exercised"}, guard{"alloc.op.free.below-pool", 200, "below-pool class"}),
+		guard{"alloc.c06.must_fail_free", 1000, "failing-Free classes must be exercised"}, guard{"alloc.op.free.below-pool", 200, "below-pool class"},
+		guard{"allocconc.porcupine_ok", 300, "concurrent histories incl. Frees of blocks the caller does not hold"}).with(allocConcRun),
 	"C07": allocSpec("Non-trivial (C07) = history containing a hinted allocation on a free block; distinct by (pool, seed).",
 		guard{"alloc.c07.hinted_free_block", 1000, "hints naming a free block"}),
 	"C01": {
@@ -145,14 +146,14 @@ var specs = map[string]*propSpec{
 		level: "exploration",
 		rule: "synthetic plugins registered with plugins.RegisterPlugin whose handlers behave as pass / modify / replace response / stop with response / stop with nil and log the identity and marker of the request/response objects they receive and return; every chain in behaviours^len for len 0..4 (781 chains; len <= 5 in the thorough tier) x both protocols, then random mixes of dual / v4-only / v6-only / failing-setup / nil-handler / unknown plugins; a quarter to a third of the configurations go through YAML and config.Load, the rest through a config value; each in a fresh server process through plugins.LoadPlugins and the real HandleMsg4/6. Oracle: handler list = listed plugins supporting the protocol, in order (or start-up error); invocation log = configured order cut after the first stop, once each, same request object, response = predecessor's return value; datagram sent = response returned last; nothing sent after nil. In every chain-child engine each loaded built-in handler is wrapped to assert 'nil response only with stop'. Distinct by (chain, protocol, config path)",
 		assumptions: assume("the enumeration is exhaustive over behaviours^len up to the stated length; longer chains and other behaviours are sampled"),
-		runs:        []runSpec{{engine: "order", qBatches: 16, qCases: 140, tBatches: 64, tCases: 160}},
-		guards:      []guard{{"order.chains_checked", 1500, "chains"}, {"order.must_fail", 50, "bad configurations"}, {"order.nil_final", 200, "nil final responses"}, {"order.sent_checked", 1500, "sent datagrams"}},
+		runs:        []runSpec{{engine: "order", netns: true, qBatches: 16, qCases: 200, tBatches: 64, tCases: 400}},
+		guards:      []guard{{"order.chains_checked", 1500, "chains"}, {"order.must_fail", 50, "bad configurations"}, {"order.nil_final", 200, "nil final responses"}, {"order.sent_checked", 1500, "sent datagrams"}, {"order.sent_link_level", 200, "responses sent as link-level frames"}},
 	},
 	"C14": {
 		level: "exploration",
 		rule: "each case is one accepted server_id spelling (DHCPv6: LL/LLT in every keyword spelling x MAC of 6/8/20 bytes in colon/hyphen/dot form; DHCPv4: dotted and v4-mapped address) hosted in a fresh server process; DHCPv6: all 256 message types x {no, matching, other kind, same kind other MAC, longer, shorter, opaque, enterprise, LLT with other time} Server Identifier x relay depth 0-2 decided by the RFC 8415 section 16 table; DHCPv4: siaddr {absent, zero, own, other} x option 54 {absent, zero, own, other} x {DISCOVER, REQUEST} x with/without parameter list; every answered message must carry exactly this server's identifier (option 54 and siaddr for DHCPv4). Distinct by (configuration, matrix cell)",
 		assumptions: assume("0.0.0.0 inside option 54 is not classified by the statement: only no-crash is required there", "message types the server itself never answers (C12) are expected to stay unanswered"),
-		runs:        []runSpec{{engine: "sid", qBatches: 16, qCases: 2, tBatches: 50, tCases: 4}},
+		runs:        []runSpec{{engine: "sid", qBatches: 16, qCases: 4, tBatches: 64, tCases: 16}},
 		guards:      []guard{{"sid.dropped", 1000, "discard rows"}, {"sid.answered", 300, "answered rows"}},
 	},
 	"C15": {
@@ -167,7 +168,7 @@ var specs = map[string]*propSpec{
 		rule: "four -race workloads, every datagram on its own goroutine with buffers from the server's pool: (raceserver) DHCPv4 and DHCPv6 full chains in one process - server_id, sleep 200us (widens parse/bufpool.Put -> lease plugin), file autorefresh, range|prefix, option plugins - bursts of 4-64 datagrams (same client, distinct clients, pool nearly exhausted, mixed; direct and relayed) while both static lease files are rewritten in place concurrently; replies must echo their own request's xid/chaddr/client-id, leases stay in range/injective/sticky, prefixes disjoint/sticky, static versions per client never go backwards and are never a mixture; (rangeconc, prefixconc, allocconc) recorded call/return histories checked for linearizability with porcupine against the lease, prefix and allocator models. The Go race detector's log (halt_on_error=0) is parsed by the driver: any report with a coredhcp frame on either stack is a violation, deduplicated by outermost entry-point pair. Non-trivial = history with >= 1 truly overlapping pair of operations; distinct by (case, interleaving fingerprint)",
 		assumptions: assume("the race detector only judges accesses that executed; schedules are those the Go scheduler produced on this machine (overlap and buffer-reuse counts are in the evidence)", "porcupine timeouts are inconclusive"),
 		runs: []runSpec{
-			{engine: "raceserver", race: true, parallel: 8, qBatches: 8, qCases: 3, tBatches: 48, tCases: 6, stall: 6 * time.Minute},
+			{engine: "raceserver", race: true, netns: true, parallel: 8, qBatches: 8, qCases: 3, tBatches: 48, tCases: 6, stall: 6 * time.Minute},
 			{engine: "rangeconc", race: true, parallel: 8, qBatches: 8, qCases: 8, tBatches: 32, tCases: 30},
 			{engine: "prefixconc", race: true, parallel: 8, qBatches: 8, qCases: 8, tBatches: 32, tCases: 30},
 			{engine: "allocconc", race: true, parallel: 8, qBatches: 8, qCases: 20, tBatches: 32, tCases: 100},
@@ -175,27 +176,27 @@ var specs = map[string]*propSpec{
 		},
 		raceDecides: true,
 		guards: []guard{{"race.overlapping_pairs", 5000, "overlapping datagram pairs"}, {"race.buffer_reuse_in_flight", 50, "pool buffers reused while a handler of an earlier datagram was in flight"},
-			{"race.static_versions_seen", 20, "static versions observed during refresh"}, {"rangeconc.porcupine_ok", 40, "range histories"}, {"prefixconc.porcupine_ok", 40, "prefix histories"}, {"allocconc.porcupine_ok", 100, "allocator histories"}},
+			{"race.static_versions_seen", 20, "static versions observed during refresh"}, {"race.l2_replies", 100, "link-level replies sniffed during bursts"}, {"race.pinned_replies", 500, "pinned replies checked"}, {"race.unanswerable_datagrams", 300, "datagrams of kinds the server never answers"}, {"rangeconc.porcupine_ok", 40, "range histories"}, {"prefixconc.porcupine_ok", 40, "prefix histories"}, {"allocconc.porcupine_ok", 100, "allocator histories"}},
 	},
 	"C17": {
 		level: "exploration",
 		rule: "each case is one option plugin with an argument vector from its accepted grammar (1-4 addresses, masks /1-/32, MTU 68-65535, durations, 1-4 domains with labels up to 63 bytes, 1-4 routes incl. /0 and /32, tftp/http/https/ftp URLs with and without params), hosted alone in a fresh server process, and 48 requests (DISCOVER/REQUEST or SOLICIT/REQUEST/RENEW/INFORMATION-REQUEST; option 55 / ORO = random subsets of the relevant codes in random order, or absent; option 116 present or not; yiaddr assigned by an earlier handler or not; option 51 already set or not). Differential oracle: reply with the plugin vs reply of the same chain without it must differ exactly by the table in model/opts.go (value encoded independently from the RFCs, present once, untouched otherwise, chain continues/stops/drops as stated). Non-trivial = every (configuration, request) pair evaluated; distinct by (plugin, args, request list, flags)",
 		assumptions: assume("argument values outside the wire range (MTU > 65535, durations >= 2^32 s) are outside 'in-range' and not generated", "request lists are sets (no duplicate codes); an empty option 55 is not generated", "nbp ends the chain in the code; whether it should is not part of the statement and is not asserted"),
-		runs:        []runSpec{{engine: "opt", qBatches: 16, qCases: 10, tBatches: 64, tCases: 48}},
+		runs:        []runSpec{{engine: "opt", qBatches: 16, qCases: 30, tBatches: 64, tCases: 200}},
 		guards:      []guard{{"opt.configs.ipv6only", 3, "ipv6only configurations"}, {"opt.configs.autoconfigure", 3, "autoconfigure"}, {"opt.configs.dns", 3, "dns"}, {"opt.configs.lease_time", 3, "lease_time"}},
 	},
 	"C18": {
 		level: "exploration",
 		rule: "YAML documents generated from the configuration grammar (server4/server6 present or not and in either order; listen absent / deprecated interface alias / scalar / list of 1-4 entries in every [address][%zone][:port] spelling incl. bracketed IPv6, zone inside brackets, v4-mapped, non-canonical spellings, link-local and interface-local multicast with and without zone, site-local multicast, wildcard forms; 1-5 plugins with 0-3 whitespace-separated arguments, null / empty / quoted / integer scalars) with an exact expectation, or with one injected rejection (wrong family, unparseable address, non-numeric port, plugins missing / empty / scalar / map, item with two keys, scalar item, listen+interface, no protocol section); a third of the documents are text mutations (byte overwrite, line deletion, re-indentation, unquoting, YAML re-typed scalars, duplication, truncation) classified no-panic-only. Each file goes through config.Load in a child process inside the private network namespace, so the interface set (multicast expansion) is known. Distinct by document text",
 		assumptions: assume("plugin names are lower-case (viper lower-cases keys); out-of-range ports, unbracketed IPv6 and YAML re-typed scalars are no-panic-only", "the set of multicast-capable interfaces is computed by the harness from net.Interfaces() independently of the loader"),
-		runs:        []runSpec{{engine: "config", netns: true, qBatches: 16, qCases: 10, tBatches: 64, tCases: 50}},
+		runs:        []runSpec{{engine: "config", netns: true, qBatches: 16, qCases: 20, tBatches: 64, tCases: 200}},
 		guards:      []guard{{"config.class.must-load", 3000, "must-load documents"}, {"config.class.must-reject", 1500, "must-reject documents"}, {"config.class.no-panic", 3000, "mutated documents"}, {"config.listeners_checked", 5000, "listeners compared"}},
 	},
 	"C19": {
 		level: "exploration",
 		rule: "each case is one built-in plugin (all 15) with one argument vector drawn from valid, boundary and invalid values of each argument kind (addresses of both families and v4-mapped, CIDRs incl. /0 and host routes, durations incl. negative/huge/garbage, integers incl. negative/overflow, URLs, labels of 63/64/255 bytes, file names: valid, malformed, empty, missing, directory; arity 0..6), hosted alone in a fresh server process through plugins.LoadPlugins; if setup accepts it, 40 requests are handled and every reply must parse, re-serialise to the same bytes and carry the options of the in-memory response. Non-trivial = every vector (accepted or rejected); distinct by (plugin, protocol, args)",
 		assumptions: assume("silent truncation that round-trips (MTU 70000 -> 4464) is an observation, not a violation, as the statement only demands a reply that serialises and parses back to the same options"),
-		runs:        []runSpec{{engine: "setup", qBatches: 16, qCases: 90, tBatches: 64, tCases: 450}},
+		runs:        []runSpec{{engine: "setup", qBatches: 16, qCases: 180, tBatches: 64, tCases: 1800}},
 		guards:      []guard{{"setup.accepted", 200, "accepted vectors"}, {"setup.rejected", 200, "rejected vectors"}, {"setup.replies_round_tripped", 3000, "replies round-tripped"}},
 	},
 	"C20": {
@@ -203,7 +204,7 @@ var specs = map[string]*propSpec{
 		rule: "each evaluation draws p in 0..128 (boundary values over-weighted), a /p-aligned base and an address x>=base from bit-pattern classes, and n from 2^k-1/2^k/2^k+1/random; " +
 			"Offset in both argument orders, AddPrefixes and the inverse law are compared with a math/big reference. Non-trivial = overflow verdict expected, borrow/carry across the 64-bit halves, or p in {63,64,65}; distinct by (p, base, x, n)",
 		assumptions: assume("inputs are 16-byte addresses, as the statement says (128-bit)"),
-		runs:        []runSpec{{engine: "arith", loglevel: "fatal", qBatches: 16, qCases: 25, tBatches: 64, tCases: 600}},
+		runs:        []runSpec{{engine: "arith", loglevel: "fatal", qBatches: 16, qCases: 100, tBatches: 64, tCases: 3000}},
 		guards: []guard{{"arith.sum_overflow", 100, "AddPrefixes overflow class must be exercised"}, {"arith.offset_overflow", 100, "Offset overflow class"},
 			{"arith.borrow", 100, "borrow across halves"}, {"arith.carry", 100, "carry across halves"}},
 	},
